@@ -1,0 +1,31 @@
+//go:build verif
+
+package tubes
+
+// This file exists only under the "verif" build tag. It exposes a read-only
+// view of internal state to verification harnesses; it changes no behaviour.
+
+// VerifState names the connection state of a reliable tube.
+func (r *Reliable) VerifState() string {
+	r.l.Lock()
+	defer r.l.Unlock()
+	switch r.tubeState {
+	case created:
+		return "created"
+	case initiated:
+		return "initiated"
+	case closeWait:
+		return "closeWait"
+	case lastAck:
+		return "lastAck"
+	case finWait1:
+		return "finWait1"
+	case finWait2:
+		return "finWait2"
+	case closing:
+		return "closing"
+	case closed:
+		return "closed"
+	}
+	return "unknown"
+}
